@@ -34,6 +34,25 @@ def to_cat(m):
     return Atom(m[1], UnaryFeature(f))
 
 
+ORIGINS = ('built', 'parsed', 'pickled', 'deep-copied')
+
+
+def to_cat_via(m, origin):
+    """the same value obtained the ways a program obtains categories: built with the constructors, parsed from
+    text, received through pickle (as worker processes do), copied"""
+    c = to_cat(m)
+    if origin == 'parsed':
+        from depccg.cat import Category
+        return Category.parse(canon(m))
+    if origin == 'pickled':
+        import pickle
+        return pickle.loads(pickle.dumps(c))
+    if origin == 'deep-copied':
+        import copy
+        return copy.deepcopy(c)
+    return c
+
+
 def ftxt(f):
     if f is None:
         return ''
